@@ -94,6 +94,11 @@ static void do_ops(char* ops, int in_cb) {
     case 'A':
       if (sscanf(tok + 1, "%" SCNu64, &a) == 1) loop.time += a;   /* uv__update_time on the virtual clock */
       break;
+    case 'J':
+      /* as if that many timers had been started elsewhere on this loop: the start counter jumps ahead.  Only the
+       * ORDER of start ids matters and a jump keeps it, so the model (ids in Z) ignores this op. */
+      if (sscanf(tok + 1, "%" SCNu64, &a) == 1) loop.timer_counter += a;
+      break;
     case 'R':
       if (!in_cb) {
         int k;
